@@ -282,9 +282,13 @@ class KMatrix(ModelItem):
         initial_concentration :
             The initial concentration.
         """
-        if np.sum(initial_concentration) != 1:
+        # Only the first compartment may be populated initially.
+        if initial_concentration[0] != 1 or np.count_nonzero(initial_concentration) != 1:
             return False
         matrix = self.reduced(compartments)
+        # The last compartment needs to decay to the ground state, else the chain is a cycle.
+        if matrix[-1, -1] == 0:
+            return False
         return not any(
             np.nonzero(matrix[:, i])[0].size != 1 or i != 0 and matrix[i, i - 1] == 0
             for i in range(matrix.shape[1])
